@@ -47,7 +47,7 @@ Section Follow.
     destruct (snd (first_str fi b)); [apply add_all_extends | apply extends_refl].
   Qed.
 
-  Lemma follow_pass_extends st : extends st (follow_pass G fi st).
+  Lemma follow_pass_extends l st : extends st (follow_pass l fi st).
   Proof. apply (fold_extends (fun st p => follow_body fi (head p) (body p) st)). intros; apply follow_body_extends. Qed.
 
   (** ** soundness *)
@@ -149,9 +149,10 @@ Section Follow.
       (forall a, fstr fi b2 a -> In (B, Some a) st)
       /\ (nstr fi b2 -> forall x, In (head p, x) st -> In (B, x) st).
 
-  Lemma follow_fixed_closed st : follow_pass G fi st = st -> follow_closed st.
+  Lemma follow_fixed_closed l st :
+    (forall p, In p (prods G) -> In p l) -> follow_pass l fi st = st -> follow_closed st.
   Proof.
-    intros Hfix p Hp. apply follow_body_fixed.
+    intros Hl Hfix p Hp. apply Hl in Hp. apply follow_body_fixed.
     apply (fold_fixed (fun st p => follow_body fi (head p) (body p) st)
              (fun s q => follow_body_extends (head q) (body q) s) _ _ Hfix p Hp).
   Qed.
@@ -285,11 +286,19 @@ Section Follow.
     apply IH; auto. intros x Hx; apply Hl; now right.
   Qed.
 
-  Lemma follow_table_terminates : follow_table G fi <> None.
+  Variable O : oracle.
+  Hypothesis HO : orders_ok G (o_follow O).
+
+  Let passes := fun i => follow_pass (o_follow O i) fi.
+  Let passes_ext : forall i s, extends s (passes i s) := fun i s => follow_pass_extends _ s.
+  Let HO1 : forall j, incl (o_follow O j) (prods G) := fun j p Hp => proj1 (HO j p) Hp.
+  Let HO2 : forall j p, In p (prods G) -> In p (o_follow O j) := fun j p Hp => proj2 (HO j p) Hp.
+
+  Lemma follow_table_terminates : follow_table G O fi <> None.
   Proof.
     unfold follow_table.
-    apply (sat_loop_terminates (follow_pass G fi) follow_pass_extends follow_universe).
-    - intros x Hn Hi. apply follow_fold_inv; auto. apply incl_refl.
+    apply (sat_loop_terminates passes passes_ext follow_universe).
+    - intros j x Hn Hi. apply follow_fold_inv; auto.
     - constructor; [intros [] | constructor].
     - intros x [<-|[]]. apply in_funiverse; [now left | exact I].
     - unfold follow_universe, follow_fuel, fact. rewrite prod_length. simpl. rewrite map_length.
@@ -301,26 +310,27 @@ Section Follow.
 
   (** ** the theorem on the table *)
   Theorem follow_table_props :
-    exists st, follow_table G fi = Some st /\
+    exists st, follow_table G O fi = Some st /\
       (forall A, (forall a, follow_sem G A a -> In (A, Some a) st) /\ (follow_end G A -> In (A, None) st)) /\
       (heads_reachable -> follow_sound st) /\
       follow_closed st /\ In (start G, None) st /\ incl st follow_universe.
   Proof.
-    destruct (follow_table G fi) as [st|] eqn:E; [|now destruct follow_table_terminates].
+    destruct (follow_table G O fi) as [st|] eqn:E; [|now destruct follow_table_terminates].
     exists st. split; [reflexivity|]. unfold follow_table in E.
     assert (Hc : follow_closed st).
-    { apply follow_fixed_closed. eapply sat_loop_fix; [apply follow_pass_extends | exact E]. }
+    { destruct (sat_loop_fix passes passes_ext _ _ _ _ E) as [j Hj].
+      apply (follow_fixed_closed (o_follow O j)); [apply HO2 | exact Hj]. }
     assert (Hst : In (start G, None) st).
-    { eapply (sat_loop_inv (follow_pass G fi) (fun x => In (start G, None) x)); [| |exact E].
-      - intros x Hx. now apply (extends_incl _ _ (follow_pass_extends x)).
+    { eapply (sat_loop_inv passes (fun x => In (start G, None) x)); [| |exact E].
+      - intros j x Hx. now apply (extends_incl _ _ (passes_ext j x)).
       - now left. }
     split; [|split; [|split; [|split]]]; auto.
     - intros A. now apply follow_complete.
-    - intros Hr. eapply (sat_loop_inv (follow_pass G fi) follow_sound); [| apply follow_init_sound | exact E].
-      intros x Hx. apply follow_fold_sound; auto. apply incl_refl.
+    - intros Hr. eapply (sat_loop_inv passes follow_sound); [| apply follow_init_sound | exact E].
+      intros j x Hx. apply follow_fold_sound; auto.
     - assert (HP : NoDup st /\ incl st follow_universe); [|apply HP].
-      eapply (sat_loop_inv (follow_pass G fi) (fun x => NoDup x /\ incl x follow_universe)); [| |exact E].
-      + intros x H. apply (follow_fold_inv (prods G) x (incl_refl _) (proj1 H) (proj2 H)).
+      eapply (sat_loop_inv passes (fun x => NoDup x /\ incl x follow_universe)); [| |exact E].
+      + intros j x H. apply (follow_fold_inv (o_follow O j) x (HO1 j) (proj1 H) (proj2 H)).
       + split; [constructor; [intros [] | constructor]|].
         intros x [<-|[]]. apply in_funiverse; [now left | exact I].
   Qed.
